@@ -1571,6 +1571,13 @@ def metacall():
                 # System Predicate string
                 return Predicate.System(arg)
 
+        if cls is Predicate:
+            # System Predicate spec, e.g. when rebuilding from an ident.
+            try:
+                return Predicate.System[spec[0] if len(spec) == 1 else spec]
+            except (KeyError, TypeError):
+                pass
+
         # Invoked class name.
         clsname = cls.__name__
         
